@@ -59,20 +59,38 @@ def build_all(prop_modules, arr=False):
             notes["lake_build_tail"] = out[-3000:]
         if not arr:
             # translation tie: regenerate SLV/Gen/*.lean from /repo's current source text and re-check, in the kernel,
-            # that the generated definitions equal the hand-written model
+            # that the generated definitions equal the hand-written model. Failing tie theorems are collected by name so
+            # that each property only answers for the functions it depends on.
             t0 = time.time()
             rc_g, out_g = sh([os.path.join(ROOT, "tools", "regen.sh")], cwd=ROOT)
             notes["tie_regen_rc"] = rc_g
-            if rc_g != 0:
-                notes["tie_problem"] = "translator failed: " + out_g[-800:]
+            failing = set()
+            import re as _re
+            for mname in _re.findall(r"UNTRANSLATABLE \S+ fn (\S+?):", out_g):
+                failing.add("gen_%s_eq" % mname.replace("::", "_"))
+            if rc_g not in (0, 3):
+                notes["tie_problem"] = "translator failed (rc=%d): %s" % (rc_g, out_g[-600:])
+                failing.add("*")
             else:
-                rc_t, out_t = sh(["lake", "build", "SLV.Gen.BiTie", "SLV.Gen.MulTie"], cwd=LEAN)
-                notes["tie_build_rc"] = rc_t
-                if rc_t != 0:
-                    import re as _re
-                    locs = sorted(set(_re.findall(r"(SLV/Gen/\w+\.lean:\d+)", out_t)))
-                    notes["tie_problem"] = "tie theorems no longer check at " + ", ".join(locs[:12])
-                    notes["tie_tail"] = out_t[-1500:]
+                for tm in ("SLV.Gen.BiTie", "SLV.Gen.MulTie"):
+                    rc_t, out_t = sh(["lake", "build", tm], cwd=LEAN)
+                    if rc_t != 0:
+                        fp = os.path.join(LEAN, *tm.split(".")) + ".lean"
+                        lines = open(fp).read().split("\n")
+                        for m in _re.finditer(r"error: \S*SLV/Gen/\w+\.lean:(\d+):\d+", out_t):
+                            ln = int(m.group(1))
+                            name = None
+                            for k in range(min(ln, len(lines)) - 1, -1, -1):
+                                mm = _re.match(r"\s*theorem\s+(\S+)", lines[k])
+                                if mm:
+                                    name = mm.group(1); break
+                            failing.add(name or ("%s:%d" % (tm, ln)))
+                        if not _re.search(r"error: \S*SLV/Gen/\w+\.lean:\d+:\d+", out_t):
+                            failing.add("*")
+                            notes["tie_tail"] = out_t[-1200:]
+            notes["tie_failing"] = sorted(failing)
+            if failing:
+                notes["tie_problem"] = notes.get("tie_problem", "") + " tie theorems that no longer check: " + ", ".join(sorted(failing))
             notes["tie_s"] = round(time.time() - t0, 1)
         t0 = time.time()
         rc2, out2 = sh(["cargo", "build", "--release", "--offline"], cwd=HARNESS_ARR if arr else HARNESS)
